@@ -1,13 +1,21 @@
 """C20 — chemical-reaction steps conserve energy and keep molecules aligned (Cro.tla, Run.tla clause C20)."""
+import json, os
 import vlib
 from checks import runlib
 
 MANIFEST = {
-    "modules": ["Cro", "Run"],
+    "modules": ["Cro", "Trace_Cro", "Run"],
     "text": "Cro.tla models the four elementary reaction updates over integer energies exactly as the components compute them "
             "(accepted / rejected / buffer-assisted, random splits as nondeterministic choices); TLC checks Conserved (sum of "
             "objective values + kinetic energies + buffer unchanged by every action), NonNegative, Aligned, ConsumesTwo and "
-            "Locality for all energies and reaction outcomes within the bound. Binding: real_cro runs over population sizes, "
+            "Locality for all energies and reaction outcomes within the bound. Binding (prepared states): every (state, "
+            "reaction) pair of the bounded model and seeded random integer-energy states (equal individuals, zero energies, "
+            "boundary products) are executed by the real update components on a prepared State (population, molecule list, "
+            "buffer, reactant and product populations on the stack); Trace_Cro.tla loads each recorded state into Cro's "
+            "variables and requires the recorded outcome to be a step of Cro's own action for that call: accepted / rejected "
+            "decided from the integer energies, objective values after exactly, kinetic share and buffer level rounded, plus "
+            "float predicates (conserved, non-negative, shares add up, non-participants bit-identical, molecules aligned). "
+            "Binding (runs): real_cro runs over population sizes, "
             "collision rates and seeds under the step observer; after EVERY component TLC (Run.tla clause C20) requires "
             "energy conserved within 1e-9 relative w.r.t. the previous step, no negative kinetic energy or buffer, one "
             "molecule per individual of the base population, each molecule's remembered best no worse than its individual "
@@ -17,12 +25,57 @@ MANIFEST = {
     "note": "conserved / ke_ok / buf_ok / best_le are evaluated in f64 by the harness",
 }
 
-RULE = ("cases = every component step of real_cro runs over the grid x seeds (plus all reaction outcomes of the bounded Cro "
-        "model); non-trivial = the step changed the projected state; distinct = distinct (state before, component) pairs")
+RULE = ("cases = reaction updates on prepared states (every (state, reaction) pair of the bounded Cro model x seeds, plus "
+        "seeded random integer-energy states) and every component step of real_cro runs over the grid x seeds; non-trivial = the step changed the projected state; distinct = distinct (state before, component) pairs")
+
+
+CRO_DESCRIBE = {
+    "state": lambda r: [r.get("pe2"), r.get("nm"), r.get("bf"), r.get("kef")],
+    "act": lambda r: {k: r.get(k) for k in ("op", "i", "j", "p1", "p2", "pe", "ke", "buffer", "seed", "lr")},
+    "is_reset": lambda r: False,
+    "nontrivial": lambda r, before, after: r.get("res") != "unchanged",
+}
+
+
+def cfg_trace_cro(maxmol):
+    return ("SPECIFICATION TraceSpec\nCONSTANTS\n  MaxE = 0\n  MaxMol = %d\nPOSTCONDITION TraceDone\nCHECK_DEADLOCK FALSE\n" % maxmol)
+
+
+def prepared(ctx):
+    """Prepared states: (B) every (state, reaction) pair of the bounded model, (C) random integer-energy states."""
+    q = ctx.quick
+    ex = ctx.tlc_mc("MC_Cro", "SPECIFICATION CSpec\nCONSTANTS\n  MaxE = 2\n  MaxMol = %d\nVIEW McView\nCONSTRAINT Bounded\n"
+                    "ACTION_CONSTRAINT PrintEdge\nCHECK_DEADLOCK FALSE\n" % (2 if q else 3), "export-cro", workers=1, timeout=3000)
+    seen, cases = set(), []
+    import tour
+    for e in tour.parse_edges(ex["out"]):
+        key = json.dumps([e["from"], e["act"]], sort_keys=True)
+        if key not in seen:
+            seen.add(key)
+            cases.append({"from": e["from"], "act": e["act"]})
+    if len(cases) < 1000:
+        raise vlib.ToolError("export of the Cro model yielded only %d (state, reaction) pairs" % len(cases))
+    ops = {c["act"]["op"] for c in cases}
+    if ops != {"on_wall", "decompose", "intermolecular", "synthesis"}:
+        raise vlib.ToolError("vacuous export: reactions %s" % sorted(ops))
+    if q:
+        cases = cases[ctx.seed % 3::3]
+    cpath = os.path.join(ctx.work, "cro.cases.ndjson")
+    with open(cpath, "w") as f:
+        for c in cases:
+            f.write(json.dumps(c) + "\n")
+    vlib.log("[case] cro: %d (state, reaction) pairs exported" % len(cases))
+    tr = os.path.join(ctx.work, "cro-enum.trace.ndjson")
+    ctx.harness("cro", "replay", **{"in": cpath, "out": tr, "seed": ctx.seed, "seeds": 2 if q else 4})
+    ctx.validate("Trace_Cro", cfg_trace_cro(99), tr, "cro-enum", CRO_DESCRIBE, {"driver": "cro"}, timeout=3000)
+    tr = os.path.join(ctx.work, "cro-random.trace.ndjson")
+    ctx.harness("cro", "random", out=tr, seed=ctx.seed, n=6000 if q else 150000, maxe=40 if q else 120)
+    ctx.validate("Trace_Cro", cfg_trace_cro(99), tr, "cro-random", CRO_DESCRIBE, {"driver": "cro"}, timeout=3000)
 
 
 def run(ctx):
     q = ctx.quick
+    prepared(ctx)
     ctx.tlc_mc("MC_Cro", "SPECIFICATION CSpec\nCONSTANTS\n  MaxE = 2\n  MaxMol = %d\nVIEW McView\nCONSTRAINT Bounded\nINVARIANT NonNegative Aligned\n"
                "PROPERTY Conserved ConsumesTwo Locality\nCHECK_DEADLOCK FALSE\n" % (2 if q else 3), "mc-cro",
                workers=4 if q else 10, timeout=3000)
@@ -32,5 +85,15 @@ def run(ctx):
 
 
 def replay(ctx, rp):
+    if rp["meta"].get("driver") == "cro":
+        a = rp["first_unmatched"]
+        cpath = os.path.join(ctx.work, "replay.cases.ndjson")
+        with open(cpath, "w") as f:
+            f.write(json.dumps({"from": {"pe": a["pe"], "ke": a["ke"], "buffer": a["buffer"]},
+                                "act": {k: a[k] for k in ("op", "i", "j", "p1", "p2")}}) + "\n")
+        tr = os.path.join(ctx.work, "replay.trace.ndjson")
+        ctx.harness("cro", "replay", **{"in": cpath, "out": tr, "seed": a["seed"], "seeds": 1})
+        ctx.validate("Trace_Cro", cfg_trace_cro(99), tr, "replay", CRO_DESCRIBE, rp["meta"])
+        return ctx.finish(RULE)
     runlib.replay(ctx, rp, ["C20"])
     return ctx.finish(RULE)
